@@ -80,11 +80,12 @@ pub trait RngCore {
 #[verifier::reject_recursive_types(F)]
 pub struct Exp<F> { _p: core::marker::PhantomData<F> }
 impl<F> Clone for Exp<F> { #[verifier::external_body] fn clone(&self) -> Exp<F> { unimplemented!() } }
-pub uninterp spec fn f64_nonneg(x: f64) -> bool;
 impl Exp<f64> {
+    // No claim about the sample: rand_distr 0.5.1 accepts lambda == -0.0 (IEEE: -0.0 >= 0.0) and then every sample is -inf
+    // (stubcheck found the former `ensures f64_nonneg(r)` wrong for that value).  Link::delay's bounds hold for ANY f64
+    // through the saturating `as` cast and `min`, so nothing needs a postcondition here.
     #[verifier::external_body]
     pub fn sample(&self, rng: &mut dyn RngCore) -> (r: f64)
-        ensures f64_nonneg(r)
     { unimplemented!() }
 }
 
